@@ -535,6 +535,21 @@ def matchesList (fuel : Nat) (combo : Bool) (head : Tree) (es : Ents) : Outcome 
         else if MT.rank .some_ ≤ r2.rank then retry fuel combo h2 es2
         else pure false
 
+mutual
+  /-- `EntList::reset()` (virtual): `SimpleList` clears `viable` and `I_marked`; `MultList` sets `viable = UNKNOWN` and resets
+  every child; `OrList` first puts back `choice`, `choice1`, `choiceCount` -/
+  def resetST : ST → ST
+    | .simple n _ _ => .simple n .unknown .no
+    | .mult .or _ _ _ _ cs => .mult .or .unknown orResetChoice orResetChoice1 orResetCount (resetL cs)
+    | .mult j _ c c1 k cs => .mult j .unknown c c1 k (resetL cs)
+  def resetL : List ST → List ST
+    | [] => []
+    | c :: cs => resetST c :: resetL cs
+end
+
+/-- `EntNode::unmarkAll()`: every node of the request list back to NOMARK -/
+def unmarkEnts (es : Ents) : Ents := es.map (fun e => { e with mark := .no })
+
 /-- `ComplexList::toplevel`: is `name` one of the supertypes (positions 0, 2, 4, …) already joined? -/
 def toplevel : List Tree → Name → Outcome Bool
   | [], _ => .ok false
